@@ -9,18 +9,20 @@
 #include <stdint.h>
 
 typedef unsigned long ul;
-enum { F_ADDASSIGN, F_PREINC, F_POSTINC, F_SUBASSIGN, F_FETCHADD, F_FETCHSUB, F_MULODD, F_XOR, F_ORAND, F_EXCHANGE, F_CASLOOP, F_CLAIM, NFAM };
-static const char *famname[] = {"op=add", "++pre", "post++", "op=sub", "fetch_add", "fetch_sub", "op=mul-odd", "op=xor", "fetch_or/and", "exchange", "cas-loop", "claim-release"};
-static const char *wname[] = {"w1", "w2", "w4", "w8", "w1s", "w8s", "w4member", "w8pointer", "w8double", "w4float"};
-static const int wbits[] = {8, 16, 32, 64, 8, 64, 32, 64, 64, 32};
-static const int wfloat[] = {0, 0, 0, 0, 0, 0, 0, 0, 1, 1};   // objects of floating type hold integral values: compared as numbers, not as bit patterns
+enum { F_ADDASSIGN, F_PREINC, F_POSTINC, F_SUBASSIGN, F_FETCHADD, F_FETCHSUB, F_MULODD, F_XOR, F_ORAND, F_EXCHANGE, F_CASLOOP, F_CLAIM, F_CASCALL, F_EXCHX, F_FETCHX, F_SIGNMOD, NFAM };
+static const char *famname[] = {"op=add", "++pre", "post++", "op=sub", "fetch_add", "fetch_sub", "op=mul-odd", "op=xor", "fetch_or/and", "exchange", "cas-loop", "claim-release", "cas-loop-call-desired", "exchange_explicit", "fetch_add/sub_explicit", "signflip-op=mod"};
+static const char *wname[] = {"w1", "w2", "w4", "w8", "w1s", "w8s", "w4member", "w8pointer", "w8double", "w4float", "w2s"};
+static const int wbits[] = {8, 16, 32, 64, 8, 64, 32, 64, 64, 32, 16};
+static const int wfloat[] = {0, 0, 0, 0, 0, 0, 0, 0, 1, 1, 0};   // objects of floating type hold integral values: compared as numbers, not as bit patterns
 static const char *stname[] = {"static", "automatic", "heap"};
 
 #define DECL(S) \
   void w_addassign_##S(void *, long, ul *); void w_preinc_##S(void *, long, ul *); void w_postinc_##S(void *, long, ul *); void w_subassign_##S(void *, long, ul *); \
   void w_fetchadd_##S(void *, long, ul *); void w_fetchsub_##S(void *, long, ul *); void w_mulodd_##S(void *, long, ul *); void w_xor_##S(void *, long, ul *, ul); \
-  void w_orand_##S(void *, long, ul *, ul); void w_exchange_##S(void *, long, ul *, ul); long w_casloop_##S(void *, long, ul *, long); void w_claim_##S(void *, long, ul *, ul);
-DECL(u8) DECL(u16) DECL(u32) DECL(u64) DECL(i8) DECL(i64) DECL(m32) DECL(p64)
+  void w_orand_##S(void *, long, ul *, ul); void w_exchange_##S(void *, long, ul *, ul); long w_casloop_##S(void *, long, ul *, long); void w_claim_##S(void *, long, ul *, ul); \
+  long w_cascall_##S(void *, long, ul *, long); void w_exchx_##S(void *, long, ul *, ul); void w_fetchx_##S(void *, long, ul *);
+DECL(u8) DECL(u16) DECL(u32) DECL(u64) DECL(i8) DECL(i64) DECL(m32) DECL(p64) DECL(i16)
+void w_signmod_i8(void *, long, ul *, ul); void w_signmod_i16(void *, long, ul *, ul); void w_signmod_i32(void *, long, ul *, ul);
 void w_addassign_d64(void *, long, ul *); void w_preinc_d64(void *, long, ul *); void w_postinc_d64(void *, long, ul *);
 void w_addassign_f32(void *, long, ul *); void w_preinc_f32(void *, long, ul *); void w_postinc_f32(void *, long, ul *);
 void *static_object(int which);
@@ -29,11 +31,16 @@ void with_automatic(int which, void (*run)(void *obj, void *ctx), void *ctx);
 typedef void (*fn3)(void *, long, ul *);
 typedef void (*fn4)(void *, long, ul *, ul);
 typedef long (*fncas)(void *, long, ul *, long);
-#define TAB(name) { (void *)w_##name##_u8, (void *)w_##name##_u16, (void *)w_##name##_u32, (void *)w_##name##_u64, (void *)w_##name##_i8, (void *)w_##name##_i64, (void *)w_##name##_m32, (void *)w_##name##_p64, 0, 0 }
-static void *table[NFAM][10] = { TAB(addassign), TAB(preinc), TAB(postinc), TAB(subassign), TAB(fetchadd), TAB(fetchsub), TAB(mulodd), TAB(xor), TAB(orand), TAB(exchange), TAB(casloop), TAB(claim) };
+#define TAB(name) { (void *)w_##name##_u8, (void *)w_##name##_u16, (void *)w_##name##_u32, (void *)w_##name##_u64, (void *)w_##name##_i8, (void *)w_##name##_i64, (void *)w_##name##_m32, (void *)w_##name##_p64, 0, 0, (void *)w_##name##_i16 }
+#define NVAR 11
+static void *table[NFAM][NVAR] = { TAB(addassign), TAB(preinc), TAB(postinc), TAB(subassign), TAB(fetchadd), TAB(fetchsub), TAB(mulodd), TAB(xor), TAB(orand), TAB(exchange), TAB(casloop), TAB(claim),
+                                   TAB(cascall), TAB(exchx), TAB(fetchx), {0} };
+// checking rules shared with the plain spellings
+static int canon(int fam) { return fam == F_CASCALL ? F_CASLOOP : fam == F_EXCHX ? F_EXCHANGE : fam == F_FETCHX ? F_FETCHADD : fam; }
 
 static void fill_float_variants(void) {
   table[F_ADDASSIGN][8] = (void *)w_addassign_d64; table[F_PREINC][8] = (void *)w_preinc_d64; table[F_POSTINC][8] = (void *)w_postinc_d64;
+  table[F_SIGNMOD][4] = (void *)w_signmod_i8; table[F_SIGNMOD][10] = (void *)w_signmod_i16; table[F_SIGNMOD][2] = (void *)w_signmod_i32;   /* the 4-byte object as a control */
   table[F_ADDASSIGN][9] = (void *)w_addassign_f32; table[F_PREINC][9] = (void *)w_preinc_f32; table[F_POSTINC][9] = (void *)w_postinc_f32;
 }
 static int ncpu_avail, cpus[256];
@@ -49,7 +56,8 @@ static void *thread_main(void *arg) {
   pthread_setaffinity_np(pthread_self(), sizeof set, &set);
   pthread_barrier_wait(&bar);
   void *f = table[j->fam][j->w];
-  switch (j->fam) {
+  switch (canon(j->fam)) {
+  case F_SIGNMOD: ((fn4)f)(j->obj, j->n, j->log, (ul)j->tid); j->loglen = j->n; break;
   case F_XOR: ((fn4)f)(j->obj, j->n, j->log, 1ul << (j->tid % wbits[j->w])); j->loglen = j->n; break;
   case F_ORAND: ((fn4)f)(j->obj, j->n, j->log, 1ul << (j->tid % wbits[j->w])); j->loglen = 2 * j->n; break;
   case F_EXCHANGE: ((fn4)f)(j->obj, j->n, j->log, 1 + (ul)j->tid * j->n); j->loglen = j->n; break;
@@ -86,14 +94,15 @@ static void run_phase_on(void *obj, void *ctx) {
   int N = p->nthreads, w = p->w;
   ul M = maskw(w);
   long n = p->n;
-  ul init = (p->fam == F_MULODD) ? 1 : (p->fam == F_SUBASSIGN || p->fam == F_FETCHSUB) ? 7 : 0;
+  struct { int fam; } cp = { canon(p->fam) };
+  ul init = (p->fam == F_MULODD) ? 1 : (p->fam == F_SUBASSIGN || p->fam == F_FETCHSUB) ? 7 : p->fam == F_SIGNMOD ? 2 : 0;
   store_obj(obj, w, init);
   Job *jobs = calloc(N, sizeof(Job));
   pthread_t *th = calloc(N, sizeof(pthread_t));
   long cap = n * 64 + 1024;
   for (int i = 0; i < N; i++) {
     jobs[i] = (Job){p->fam, w, i, N, n, obj, 0, 0, cap};
-    long words = p->fam == F_CASLOOP ? 3 * cap : 2 * n + 8;
+    long words = cp.fam == F_CASLOOP ? 3 * cap : 2 * n + 8;
     jobs[i].log = malloc(sizeof(ul) * words);
   }
   pthread_barrier_init(&bar, 0, N);
@@ -107,7 +116,7 @@ static void run_phase_on(void *obj, void *ctx) {
   long handoffs = 0, casfail = 0;
   char det[200];
 
-  if (p->fam <= F_MULODD) {
+  if (cp.fam <= F_MULODD) {
     // expected multiset of returned values
     ul *exp = malloc(sizeof(ul) * total), *got = malloc(sizeof(ul) * total);
     int *owner = malloc(sizeof(int) * total);
@@ -115,7 +124,7 @@ static void run_phase_on(void *obj, void *ctx) {
     ul v = init;
     for (long i = 0; i < total; i++) {
       ul before = v;
-      switch (p->fam) {
+      switch (cp.fam) {
       case F_ADDASSIGN: case F_PREINC: v = (v + 1) & M; exp[i] = v; break;
       case F_POSTINC: case F_FETCHADD: v = (v + 1) & M; exp[i] = before; break;
       case F_SUBASSIGN: v = (v - 1) & M; exp[i] = v; break;
@@ -129,9 +138,9 @@ static void run_phase_on(void *obj, void *ctx) {
     if (k != total) { violation(p, "log-length", 0); }
     if (final != expfinal) { snprintf(det, sizeof det, "final value %lu, expected %lu: %ld updates lost", final, expfinal, (long)((expfinal - final) & M)); violation(p, "lost-update", det); }
     // hand-offs (only meaningful when the expected values are all distinct)
-    if (wbits[w] >= 32 && p->fam != F_MULODD) {
+    if (wbits[w] >= 32 && cp.fam != F_MULODD) {
       ul base = exp[0];
-      int dir = (p->fam == F_SUBASSIGN || p->fam == F_FETCHSUB) ? -1 : 1;
+      int dir = (cp.fam == F_SUBASSIGN || cp.fam == F_FETCHSUB) ? -1 : 1;
       memset(owner, -1, sizeof(int) * total);
       for (int t = 0; t < N; t++)
         for (long i = 0; i < jobs[t].loglen; i++) {
@@ -155,7 +164,7 @@ static void run_phase_on(void *obj, void *ctx) {
       violation(p, final == expfinal ? "result-values" : "lost-update-values", det);
     }
     free(exp); free(got); free(owner);
-  } else if (p->fam == F_XOR) {
+  } else if (cp.fam == F_XOR) {
     ul expfinal = 0;
     for (int t = 0; t < N; t++) if (n & 1) expfinal ^= 1ul << (t % wbits[w]);
     int distinct = N <= wbits[w];
@@ -166,7 +175,7 @@ static void run_phase_on(void *obj, void *ctx) {
         for (long i = 0; i < jobs[t].loglen; i++)
           if (!!(jobs[t].log[i] & bit) != ((i + 1) & 1)) { snprintf(det, sizeof det, "thread %d op %ld: own bit not toggled", t, i); violation(p, "lost-update", det); t = N; break; }
       }
-  } else if (p->fam == F_ORAND) {
+  } else if (cp.fam == F_ORAND) {
     int distinct = N <= wbits[w];
     if (distinct && final != 0) { snprintf(det, sizeof det, "final %lx expected 0", final); violation(p, "lost-update", det); }
     if (distinct)
@@ -175,7 +184,7 @@ static void run_phase_on(void *obj, void *ctx) {
         for (long i = 0; i < jobs[t].loglen; i++)
           if (!!(jobs[t].log[i] & bit) != (i & 1)) { snprintf(det, sizeof det, "thread %d op %ld: fetch_%s saw own bit %s", t, i, (i & 1) ? "and" : "or", (i & 1) ? "clear" : "set"); violation(p, "lost-update", det); t = N; break; }
       }
-  } else if (p->fam == F_EXCHANGE) {
+  } else if (cp.fam == F_EXCHANGE) {
     // exactly-once: {received} + {final} == {0} + {all tokens}
     ul *got = malloc(sizeof(ul) * (total + 1)), *exp = malloc(sizeof(ul) * (total + 1));
     long k = 0;
@@ -195,13 +204,17 @@ static void run_phase_on(void *obj, void *ctx) {
     // hand-offs: a token received by a thread other than the one that stored it
     for (int t = 0; t < N; t++) for (long i = 0; i < jobs[t].loglen; i++) { ul tok = jobs[t].log[i] & M; if (tok && (long)((tok - 1) / p->n) != t) handoffs++; }
     free(got); free(exp);
-  } else if (p->fam == F_CASLOOP) {
+  } else if (cp.fam == F_CASLOOP) {
     ul *succ = malloc(sizeof(ul) * total);
     long k = 0;
     int overflow = 0;
     for (int t = 0; t < N; t++) {
       long m = jobs[t].loglen / 3;
       if (m >= cap) overflow = 1;
+      if (p->fam == F_CASCALL && m == 1 && jobs[t].log[0] == ~0ul && jobs[t].log[2] == 0) {
+        snprintf(det, sizeof det, "thread %d: a failed compare-exchange changed an unrelated object (now %ld)", t, (long)jobs[t].log[1]);
+        violation(p, "cas-writeback-to-wrong-address", det); overflow = 1; break;
+      }
       for (long i = 0; i < m; i++) {
         ul expected = jobs[t].log[3 * i] & M, res = jobs[t].log[3 * i + 1] & M, ok = jobs[t].log[3 * i + 2];
         if (ok) { if (k < total) succ[k] = expected; k++; if (res != ((expected + 1) & M)) violation(p, "cas-result", 0); }
@@ -221,7 +234,18 @@ static void run_phase_on(void *obj, void *ctx) {
       if (final != ((ul)total & M)) { snprintf(det, sizeof det, "final %lu expected %lu", final, (ul)total & M); violation(p, "lost-update", det); }
     }
     free(succ);
-  } else if (p->fam == F_CLAIM) {
+  } else if (cp.fam == F_SIGNMOD) {
+    ul minus2 = (ul)-2 & M;
+    long flippers = N / 2;
+    ul expfinal = ((flippers * n) & 1) ? minus2 : 2;
+    for (int t = 0; t < N; t++)
+      for (long i = 0; i < jobs[t].loglen; i++) {
+        ul v = jobs[t].log[i] & M;
+        if (v != 2 && v != minus2) { snprintf(det, sizeof det, "thread %d (%s) op %ld produced %ld: neither 2 nor -2", t, (t & 1) ? "x *= -1" : "x %= 16", i, (long)jobs[t].log[i]); violation(p, "result-from-value-never-held", det); t = N; break; }
+        if (i && v != (jobs[t].log[i - 1] & M)) handoffs += !(t & 1);
+      }
+    if (final != expfinal) { snprintf(det, sizeof det, "final %lu expected %lu", final, expfinal); violation(p, "lost-update", det); }
+  } else if (cp.fam == F_CLAIM) {
     ul won = 0, lost = 0, imp = 0, wrong = 0;
     for (int t = 0; t < N; t++) { won += jobs[t].log[0]; lost += jobs[t].log[1]; imp += jobs[t].log[2]; wrong += jobs[t].log[3]; }
     casfail = lost;
@@ -251,7 +275,7 @@ int main(int argc, char **argv) {
   fill_float_variants();
   int idx = 0;
   for (int fam = 0; fam < NFAM; fam++)
-    for (int w = 0; w < 10; w++) {
+    for (int w = 0; w < NVAR; w++) {
       if (!table[fam][w]) continue;
       int st = (idx++ + seed) % 3;
       int nst = small ? 1 : 3;
@@ -259,9 +283,10 @@ int main(int argc, char **argv) {
         Phase p = {fam, w, (st + s) % 3, N, n};
         if (small && s > 0) break;
         // narrow objects: keep token/chain spaces unambiguous
-        if ((fam == F_EXCHANGE || fam == F_CASLOOP) && wbits[w] == 8) p.n = 250 / N;
-        if ((fam == F_EXCHANGE || fam == F_CASLOOP) && wbits[w] == 16 && (long)N * n > 65000) p.n = 65000 / N;
-        if (fam == F_CASLOOP && p.n > 200000) p.n = 200000;
+        int cf = canon(fam);
+        if ((cf == F_EXCHANGE || cf == F_CASLOOP) && wbits[w] == 8) p.n = 250 / N;
+        if ((cf == F_EXCHANGE || cf == F_CASLOOP) && wbits[w] == 16 && (long)N * n > 65000) p.n = 65000 / N;
+        if (cf == F_CASLOOP && p.n > 200000) p.n = 200000;
         if (wfloat[w] && wbits[w] == 32 && (long)N * p.n >= (1 << 24)) p.n = ((1 << 24) - 1) / N;
         if (p.st == 0) run_phase_on(static_object(w), &p);
         else if (p.st == 1) with_automatic(w, run_phase_on, &p);
